@@ -2,6 +2,7 @@
 package c03
 
 import (
+	"time"
 	"bytes"
 	"context"
 	"crypto/rand"
@@ -26,7 +27,8 @@ type Pre struct {
 }
 
 type RunSpec struct {
-	// Outcome: ok | noauth | noslot | caerr | addfail (the agent refuses the first certificate insertion once;
+	// Outcome: cadelay (the caller's context ends after 150 ms, the CA answers - successfully - after 450 ms:
+	// the run is a late success or a failure, and a failure must stay one) | ok | noauth | noslot | caerr | addfail (the agent refuses the first certificate insertion once;
 	// the private key insertion before it passes) | removefail (the agent refuses the first removal request of the run,
 	// keeping the identity; without an earlier generation no removal is requested and the run is an ordinary one)
 	Outcome  string
@@ -70,6 +72,9 @@ func gen(t *rapid.T) Case {
 		}
 		if r.Validity == 0 {
 			r.Validity = rapid.Uint64Range(1, 315360000).Draw(t, l+"ValidityAny")
+		}
+		if rapid.IntRange(0, 31).Draw(t, l+"SlowCA") == 0x0b { // rare: each such run takes half a second
+			r.Outcome = "cadelay"
 		}
 		if rapid.IntRange(0, 3).Draw(t, l+"IsMulti") == 0 {
 			r.Multi = rapid.IntRange(2, 3).Draw(t, l+"Multi")
@@ -175,6 +180,9 @@ func exec(c Case) (vh.Outcome, error) {
 			return out, vh.Errf("%s: configuration did not load: %v", where, cerr)
 		}
 		ca := &vh.FakeCA{Default: vh.CABehaviour{NCerts: r.NCerts, Comments: r.Comments, Window: r.Window}}
+		if r.Outcome == "cadelay" {
+			ca.Default.DelayMS = 450
+		}
 		if r.Outcome == "caerr" {
 			ca.Default = vh.CABehaviour{Err: "verif: the CA is down"}
 			if r.Multi > 0 {
@@ -233,7 +241,21 @@ func exec(c Case) (vh.Outcome, error) {
 		framesBefore := p.NumFrames()
 		_ = checkValidity
 		var runErr error
-		cr := vh.Catch(func() { runErr = gensign.Run(context.Background(), param, []gensign.Handler{h}, ca) })
+		runCtx, runCancel := context.Background(), func() {}
+		if r.Outcome == "cadelay" {
+			runCtx, runCancel = context.WithTimeout(context.Background(), 150*time.Millisecond)
+		}
+		cr := vh.Catch(func() { runErr = gensign.Run(runCtx, param, []gensign.Handler{h}, ca) })
+		runCancel()
+		if r.Outcome == "cadelay" {
+			if runErr == nil {
+				r.Outcome = "ok" // the run waited for the CA: a late, ordinary success
+			} else {
+				// the run gave up; whatever it left running must not touch the agent afterwards
+				time.Sleep(700 * time.Millisecond)
+				out.Classes = append(out.Classes, "gave-up-on-a-slow-CA")
+			}
+		}
 		if lastConn != interface{ Close() error }(conn) {
 			conn.Close()
 		}
@@ -368,7 +390,7 @@ func equal(a, b []string) bool {
 	return true
 }
 
-const rule = "histories against one recording keyring agent: 0..5 pre-existing identities (plain RSA / ECDSA / Ed25519 keys and foreign certificates whose comments are near-misses of the handler label: other case, truncation, '-' for '.', missing first letter, 'private-key', empty, non-ASCII; comments containing the exact handler name are not generated), then 1..6 runs - of the real handler (a third of the later ones through the handler object and forwarded connection an earlier run built, class handler-object-reused), or (a quarter) of a harness handler whose one agent key (the repository's AgentKey) carries 2..3 signing requests - each succeeding or failing {agent refuses the challenge / handler rejects, no key slot configured, CA error - for several requests: on the last one, after the earlier ones were signed -, the agent refusing to remove an identity of the previous generation, the agent refusing one certificate insertion}, the CA returning 1..3 certificates (validity window as requested, or without expiry, or valid until 2^63 s, or stamped by a CA clock 90 s ahead) with 0..n+1 comments (present / empty / containing the handler name), validity from {1, 2, 3599, 3600, 43200, 2^31, 315360000} or random in 1 s..10 y. Oracle after a successful run: the new private key and every returned certificate are listed, signing with each certificate yields a signature verifying under its key, every AddedKey the agent received has 0 < lifetime and lifetime >= validity, certificates of the earlier generation are absent, the certificate set is exactly foreign + this generation, every pre-existing identity is present with identical blob and comment; after a failing run the certificate set is unchanged. Non-trivial: >= 2 successful runs or a failure after a success, with >= 1 pre-existing identity."
+const rule = "histories against one recording keyring agent: 0..5 pre-existing identities (plain RSA / ECDSA / Ed25519 keys and foreign certificates whose comments are near-misses of the handler label: other case, truncation, '-' for '.', missing first letter, 'private-key', empty, non-ASCII; comments containing the exact handler name are not generated), then 1..6 runs - of the real handler (a third of the later ones through the handler object and forwarded connection an earlier run built, class handler-object-reused), or (a quarter) of a harness handler whose one agent key (the repository's AgentKey) carries 2..3 signing requests - each succeeding or failing {agent refuses the challenge / handler rejects, no key slot configured, CA error - for several requests: on the last one, after the earlier ones were signed -, the agent refusing to remove an identity of the previous generation, the agent refusing one certificate insertion, a CA that answers 300 ms after the caller's context ended (late success, or a failure after which the agent is looked at 700 ms later)}, the CA returning 1..3 certificates (validity window as requested, or without expiry, or valid until 2^63 s, or stamped by a CA clock 90 s ahead) with 0..n+1 comments (present / empty / containing the handler name), validity from {1, 2, 3599, 3600, 43200, 2^31, 315360000} or random in 1 s..10 y. Oracle after a successful run: the new private key and every returned certificate are listed, signing with each certificate yields a signature verifying under its key, every AddedKey the agent received has 0 < lifetime and lifetime >= validity, certificates of the earlier generation are absent, the certificate set is exactly foreign + this generation, every pre-existing identity is present with identical blob and comment; after a failing run the certificate set is unchanged. Non-trivial: >= 2 successful runs or a failure after a success, with >= 1 pre-existing identity."
 
 func TestC03Provision(t *testing.T) {
 	vh.Run(t, vh.Spec[Case]{Property: "C03", Name: "TestC03Provision", Rule: rule, Gen: gen, Exec: exec})
